@@ -42,7 +42,7 @@ PROBES = ['sixth-rejection', 'begin-out-of-turn', 'no-nul', 'line-too-long', 'au
           'cookie-accepted', 'cookie-wrong-hash-rejected', 'external-accepted',
           'anonymous-accepted', 'challenge-issued', 'cut-between-cr-and-lf',
           'bytes-after-begin-same-read', 'keyring-created', 'keyring-refused',
-          'overlapping-cookie-exchanges', 'cookie-exchange-after-others', 'cookie-exchange-abandoned-earlier']
+          'overlapping-cookie-exchanges', 'cookie-exchange-after-others', 'cookie-exchange-abandoned-earlier', 'bus-served-others-before']
 COMPONENTS = {
     'real': ['txdbus.bus.BusProtocol / txdbus.protocol.BasicDBusProtocol (server role)',
              'txdbus.authentication.BusAuthenticator (tracing subclass on handleAuthMessage)',
@@ -486,6 +486,34 @@ def scenario(ctx):
         judge()
         safety()
 
+    def earlier_peers():
+        # the bus has served other connections before: conforming clients of any kind that
+        # were accepted, rejected, or went away half way
+        if pre or not ds.flag(0.25):
+            return
+        sim.probe('bus-served-others-before')
+        es = Scheduler(ctx, allow_stall=False)
+        for j in range(1 + ds.choose(2)):
+            k2 = ds.pick(['EXTERNAL', 'EXTERNAL-ir', 'COOKIE', 'ANONYMOUS', 'COOKIE-wrong-hash',
+                          'COOKIE-stale', 'COOKIE-cancel', 'COOKIE-silent'])
+            o = RefSaslClient(k2, keyring=os.path.join(home, '.dbus-keyrings'))
+            pj = t_bus.BusProtocol()
+            pj.factory = f
+            cj = net.Connection(sim, 'e%d' % j, None, node, unix=True,
+                                creds=(4300 + j, 1000, 1000) if creds_present else None)
+            cj.attach(o, pj, a_first=False)
+            es.run(150)
+            es.drain(100)
+            how = ds.choose(3)
+            if how == 1 and o.transport.state == net.OPEN:
+                o.transport.loseConnection()
+            elif how == 2:
+                cj.reset()
+            es.drain(100)
+        for where, what, e in sim.exceptions:
+            raise Violation('C06/exception', exc_key(e), 'exception while the bus served an earlier, '
+                            'conforming peer (%s): %r' % (where, e))
+
     # ---------------------------------------------------------------------------------
     if cfg == 'ref':
         kind = pre.get('client') or ds.pick(['EXTERNAL', 'EXTERNAL-ir', 'COOKIE', 'ANONYMOUS',
@@ -522,6 +550,8 @@ def scenario(ctx):
                     cj.reset()
                 others_sched.drain(100)
                 sim.advance(ds.pick([1, 29, 31, 45, 3600]))
+        if not crowd:
+            earlier_peers()
         conn.attach(peer, proto, a_first=False)
         if kind == 'COOKIE' and not crowd and ds.flag(0.5):
             # a second peer of the same bus starts a cookie exchange of its own and abandons it
@@ -562,6 +592,7 @@ def scenario(ctx):
 
     # ---- scripted peers ---------------------------------------------------------------
     peer = DumbPeer('script')
+    earlier_peers()
     conn.attach(peer, proto, a_first=False)
     if 'lines' in pre:
         script = [ALPHABET[i] for i in pre['lines']]
